@@ -31,7 +31,7 @@ type houdiniHook struct {
 	onBack func(fr *Frame, st *State)
 }
 
-// quickValid: is goal a consequence of the state's path condition? (z3 5.1, 3 s, full assumption set)
+// quickValid: is goal a consequence of the state's path condition? (z3 5.1, 10 s, full assumption set)
 func (vc *VC) quickValid(st *State, goal Term) bool {
 	if goal.IsTrue() {
 		return true
@@ -48,7 +48,7 @@ func (vc *VC) quickValid(st *State, goal Term) bool {
 	defer os.RemoveAll(dir)
 	file := filepath.Join(dir, "q.smt2")
 	os.WriteFile(file, []byte(o.SMTFull(false)), 0o644)
-	r := runSolver(context.Background(), solvers[0], file, 3)
+	r := runSolver(context.Background(), solvers[0], file, 10)
 	return r.Result == "unsat"
 }
 
@@ -91,17 +91,35 @@ func (vc *VC) autoLoopContract(fr *Frame, st *State, li *LoopInfo, header *ssa.B
 	if !stepsByOne {
 		return nil
 	}
-	// the bound must be defined outside the loop
+	// the bound must be defined outside the loop, or be len(s) of a slice/string value defined outside it
+	var bv Term
+	haveBound := false
 	if bi, ok := cmp.Y.(ssa.Instruction); ok && li.Body[bi.Block()] {
-		return nil
+		call, isCall := cmp.Y.(*ssa.Call)
+		if !isCall || len(call.Call.Args) != 1 {
+			return nil
+		}
+		if b, isB := call.Call.Value.(*ssa.Builtin); !isB || b.Name() != "len" {
+			return nil
+		}
+		if ai, ok := call.Call.Args[0].(ssa.Instruction); ok && li.Body[ai.Block()] {
+			return nil
+		}
+		sv, isSlice := vc.val(fr, st, call.Call.Args[0]).(SliceVal)
+		if !isSlice {
+			return nil
+		}
+		bv, haveBound = sv.Len, true
 	}
 	a, ok := phiVals[indIdx].(Term)
 	if !ok {
 		return nil
 	}
-	bv, ok := vc.val(fr, st, cmp.Y).(Term)
-	if !ok {
-		return nil
+	if !haveBound {
+		bv, ok = vc.val(fr, st, cmp.Y).(Term)
+		if !ok {
+			return nil
+		}
 	}
 	signed := isSigned(ind.Type())
 	if a.C != nil && bv.C != nil {
